@@ -629,12 +629,18 @@ func (g *gen) writeFuncImplArgChecks(b *buffer, n *a.Func) error {
 		b.writes(c)
 	}
 	b.writes(") {\n")
-	b.writes("self->private_impl.magic = WUFFS_BASE__DISABLED;\n")
-	if g.currFunk.astFunc.Effect().Coroutine() {
+	if !n.Receiver().IsZero() && !n.Effect().Pure() {
+		// A pure method's self is a pointer to const.
+		b.writes("self->private_impl.magic = WUFFS_BASE__DISABLED;\n")
+	}
+	if g.currFunk.returnsStatus {
 		b.writes("return wuffs_base__make_status(wuffs_base__error__bad_argument);\n")
 	} else {
-		// TODO: don't assume that the return type is empty.
-		b.printf("return wuffs_base__make_empty_struct();\n")
+		b.writes("return ")
+		if err := writeOutParamZeroValue(b, g.tm, n.Out()); err != nil {
+			return err
+		}
+		b.writes(";\n")
 	}
 	b.writes("}\n")
 	return nil
